@@ -228,6 +228,24 @@ def r7_args_covered(run, F):
                "consume(Token::%s) is called (%d sites); Token::expectation handles %s and panics otherwise" % (v, len(wh), sorted(handled)))
 
 
+def r8_cited_invariants(run, F):
+    """The reviewed reasons of R1 discharge panic sites by invariants that other properties' rules decide (the reason
+    strings cite them).  Those rules are re-run here, so that breaking a cited invariant is reported under C02 as well:
+    a `loop` that survives the syntax analyzer reaches `Statement::Loop => unreachable!()` in the generator, etc."""
+    from props import c06, c01
+    old = run.key_prefix
+    try:
+        run.key_prefix = old + "cited:C06:"
+        c06.r2_flags(run, F)       # a Loop statement only survives as the last statement of a block
+        c06.r4_generator(run, F)   # ... where Block::generate peels it off before Statement::generate
+        run.key_prefix = old + "cited:C03:"
+        c03.r5_registration(run, F)  # functions are declared before any call is generated
+        run.key_prefix = old + "cited:C01:"
+        c01.r3_conversion(run, F)  # generator conversions agree with the resolver's table
+    finally:
+        run.key_prefix = old
+
+
 def check(run):
     F = run.facts("B")
     r1_inventory(run, F)
@@ -238,3 +256,4 @@ def check(run):
     r5_poisoned(run, F)
     r6_abort(run, F)
     r7_args_covered(run, F)
+    r8_cited_invariants(run, F)
